@@ -343,7 +343,29 @@ func (x *palExec) target(class string, prefill []int) palCont {
 	return t
 }
 
+// sibling: another container of the same kind is created and loaded while the history's container rests (a world
+// holds thousands of sections): single-valued wire forms with other values, a Set. Containers are independent
+// values - nothing of this may show in x.cur.
+func (x *palExec) sibling() {
+	if x.cur == nil || x.rng.Intn(3) != 0 {
+		return
+	}
+	catch(func() {
+		sib := palNew(x.kind, x.n, 0)
+		for i := 0; i < 2; i++ {
+			v := 1 + x.rng.Intn(x.maxID)
+			wire := fvPut(fvPut([]byte{0}, int32(v)), 0) // bits 0, the value, an empty data array
+			sib.ReadFrom(bytes.NewReader(wire))
+		}
+		sib.Set(x.rng.Intn(x.n), x.rng.Intn(x.maxID+1))
+	})
+}
+
 func (x *palExec) step(op palOp) {
+	switch op.Op {
+	case "set", "get", "dump", "wire":
+		x.sibling()
+	}
 	switch op.Op {
 	case "new":
 		var c palCont
